@@ -7,6 +7,7 @@ import (
 	"fmt"
 	"math"
 	"strings"
+	"sync"
 
 	"github.com/bmeg/grip/kvi"
 	"github.com/bmeg/grip/log"
@@ -38,6 +39,20 @@ func containsPrefix(c string, s []string) bool {
 type KVIndex struct {
 	KV     kvi.KVInterface
 	Fields map[string][]string
+	// fieldLock guards Fields: fields are registered and removed (graph creation and
+	// deletion) while documents are being added
+	fieldLock sync.RWMutex
+}
+
+// fields returns a snapshot of the registered fields
+func (idx *KVIndex) fields() map[string][]string {
+	idx.fieldLock.RLock()
+	defer idx.fieldLock.RUnlock()
+	o := make(map[string][]string, len(idx.Fields))
+	for k, v := range idx.Fields {
+		o[k] = v
+	}
+	return o
 }
 
 // KVTermCount Get all terms and their counts
@@ -60,7 +75,9 @@ func NewIndex(kv kvi.KVInterface) *KVIndex {
 // AddField add new field to be indexed
 func (idx *KVIndex) AddField(path string) error {
 	fk := FieldKey(path)
+	idx.fieldLock.Lock()
 	idx.Fields[path] = strings.Split(path, ".")
+	idx.fieldLock.Unlock()
 	return idx.KV.Set(fk, []byte{})
 }
 
@@ -71,7 +88,9 @@ func (idx *KVIndex) RemoveField(path string) error {
 	ed := EntryPrefix(path)
 	idx.KV.DeletePrefix(fkt)
 	idx.KV.DeletePrefix(ed)
+	idx.fieldLock.Lock()
 	delete(idx.Fields, path)
+	idx.fieldLock.Unlock()
 	return idx.KV.Delete(fk)
 }
 
@@ -112,7 +131,7 @@ func (idx *KVIndex) AddDocTx(tx kvi.KVBulkWrite, docID string, doc map[string]in
 	sdoc := Doc{Entries: [][]byte{}}
 	docKey := DocKey(docID)
 
-	for field, p := range idx.Fields {
+	for field, p := range idx.fields() {
 		x := mapDig(doc, p)
 		if x != nil {
 			term, t := GetTermBytes(x)
@@ -191,7 +210,7 @@ func (idx *KVIndex) termGetCount(tx kvi.KVTransaction, field string, ttype TermT
 // found without the per-id document record, which documents that share an id (the same
 // id in two graphs, or a vertex and an edge) overwrite for one another.
 func (idx *KVIndex) RemoveDocTx(tx kvi.KVTransaction, docID string, doc map[string]interface{}) error {
-	for field, p := range idx.Fields {
+	for field, p := range idx.fields() {
 		x := mapDig(doc, p)
 		if x == nil {
 			continue
